@@ -13,7 +13,7 @@ RULE = ('Hypothesis-generated cuts on random references: NlaIII (CATG planted at
         'unmapped R2, options check_motif, allow_cycle_shift, invert_strand, no_umi_cigar_processing, trimmed and '
         'untrimmed CHIC layout. Oracle: the simulator\'s cut coordinate (absolute) and the mirror relation '
         'DS\' = L-4-DS (NlaIII) / L-1-DS (scCHIC), RS\' = not RS, equal validity and equal fragment equality. '
-        'Non-trivial: clip > 0, mutated or shifted motif, or a non-default option. Part radius: 2..5 scCHIC cuts of one cell/UMI within an assignment radius (1..50) as one CHICMolecule, forward and mirrored: number of molecules equal, DS of every read mirrored, the site one of the cuts (non-trivial: >= 2 different cuts). Part no_overhang: NlaIII reads without the CATG (method nla_no_overhang) on a reference with planted motifs only, both strands, gaps 0..4 between motif and read, reads of opposite strands sharing a boundary coordinate, every read also mirrored on the reverse-complemented contig of the same FASTA handle; oracle: the CATG closest to the read within the 7 flanking reference bases.')
+        'Non-trivial: clip > 0, mutated or shifted motif, or a non-default option. Part radius: 2..5 scCHIC cuts of one cell/UMI within an assignment radius (1..50) as one CHICMolecule, forward and mirrored: number of molecules equal, DS of every read mirrored, the site one of the cuts (non-trivial: >= 2 different cuts). Part no_overhang: NlaIII reads without the CATG (method nla_no_overhang) on a reference with planted motifs only, both strands, gaps 0..4 between motif and read, reads of opposite strands sharing a boundary coordinate, every read also mirrored on the reverse-complemented contig of the same FASTA handle; oracle: the CATG closest to the read within the 7 flanking reference bases. Part cli: small BAMs through bamtagmultiome with --no_umi_cigar_processing / --allow_cycle_shift / --no_restriction_motif_check; DS, RS and rejection of every read must equal what the fragment class computes with the same options (differential: command line vs API).')
 ASSUMPTIONS = ['under no_umi_cigar_processing only the mirror relation is asserted',
                'with check_motif=False only intact / mismatched motifs are generated (a cycle shift is then undefined)',
                'trimmed scCHIC layout = exactly one base removed from the read start (SCCHIC_384w demultiplexer)']
@@ -33,8 +33,8 @@ def strategy():
         L = draw(st.integers(120, 400))
         ref = list(draw(st.lists(st.sampled_from('ACGT'), min_size=L, max_size=L)))
         site = draw(st.one_of(st.integers(10, L - 90), st.sampled_from([0, 0, 1, 2, 3])))     # also cuts at the very start of the contig
-        if method == 'chic':
-            site = max(site, 1)      # the site of a scCHIC cut is the base before the overhang base
+        # (scCHIC: the site is the base before the overhang base: a molecule starting on the first base of the contig has site -1,
+        # its mirror image site L)
         if method == 'nla':
             ref[site:site + 4] = list('CATG')
         motif = 'intact'
@@ -404,8 +404,112 @@ def eval_no_overhang(case):
     return out
 
 
+# ------------------------------------------------------------------ the command line forwards the fragment options
+
+def cli_strategy():
+    @st.composite
+    def case(draw):
+        method = draw(st.sampled_from(['nla', 'chic', 'chic']))
+        L = draw(st.integers(600, 1500))
+        ref = list(draw(st.lists(st.sampled_from('ACGT'), min_size=L, max_size=L)))
+        frags = []
+        for i in range(draw(st.integers(1, 6))):
+            site = 40 + i * 90 + draw(st.integers(0, 20))
+            if site > L - 120:
+                break
+            rev = draw(st.booleans())
+            if method == 'nla':
+                ref[site:site + 4] = list('CATG')
+            frags.append({'site': site, 'rev': rev, 'rlen': draw(st.integers(20, 40)), 'clip5': draw(st.sampled_from([0, 0, 1, 2, 3, 6])),
+                          'shift': method == 'nla' and draw(st.integers(0, 4)) == 0, 'trimmed': draw(st.booleans())})
+        opts = {'no_umi_cigar_processing': draw(st.booleans()), 'allow_cycle_shift': method == 'nla' and draw(st.booleans()),
+                'no_restriction_motif_check': method == 'nla' and draw(st.integers(0, 3)) == 0}
+        return {'method': method, 'ref': ''.join(ref), 'frags': frags, 'opts': opts}
+    return case()
+
+
+def eval_cli(case):
+    """bamtagmultiome with the fragment options on the command line must tag every read 1 with the site (DS), strand (RS) and
+    rejection state that the fragment class itself computes with these options."""
+    import os
+    import shutil
+    import pysam
+    from ..core import scratch_dir
+    from ..common.bamsim import write_bam
+    from ..common import tagrun
+    from singlecellmultiomics.fragment import NlaIIIFragment, CHICFragment
+    out = Outcome()
+    ref, L, meth, o = case['ref'], len(case['ref']), case['method'], case['opts']
+    if not case['frags']:
+        return out
+    d = os.path.join(scratch_dir(), 'c09cli_%d' % os.getpid())
+    shutil.rmtree(d, ignore_errors=True)
+    os.makedirs(d)
+    try:
+        recs = []
+        for i, f in enumerate(case['frags']):
+            a0 = f['site'] + (1 if f['shift'] else 0) if meth == 'nla' else f['site'] + (1 if f['trimmed'] else 0)
+            seq = ref[a0:a0 + f['rlen']]
+            c5 = min(f['clip5'], len(seq) - 8)
+            r = {'pos': a0 + c5, 'cigar': ('%dS' % c5 if c5 else '') + '%dM' % (len(seq) - c5), 'seq': seq, 'reverse': False}
+            if f['rev']:
+                # the same cut seen from the other strand of the SAME reference: reverse read ending at the cut
+                end = f['site'] + 4 if meth == 'nla' else f['site']
+                s0 = end - f['rlen']
+                seq = ref[s0:end]
+                r = {'pos': s0, 'cigar': '%dM' % (len(seq) - c5) + ('%dS' % c5 if c5 else ''), 'seq': seq, 'reverse': True}
+            tags = {'SM': 'cell%d' % i, 'RX': 'ACG', 'BC': 'AAACCCGG', 'MI': 'AAACCCGGACG%d' % i}
+            if meth == 'chic':
+                tags['lh'] = 'TA'
+                if f['trimmed']:
+                    tags['MX'] = 'scCHIC384C8U3'
+            recs.append({'name': 'q%d' % i, 'flag': 16 if r['reverse'] else 0, 'tid': 0, 'pos': r['pos'], 'mapq': 60, 'cigar': r['cigar'],
+                         'seq': r['seq'], 'tags': tags, 'mtid': -1, 'mpos': -1})
+        bam_in, bam_out = os.path.join(d, 'in.bam'), os.path.join(d, 'out.bam')
+        write_bam(bam_in, [('chrT', L)], recs)
+        extra = ['-umi_hamming_distance', '0']
+        for k_, v in o.items():
+            if v:
+                extra.append('--' + k_)
+        try:
+            tagrun.run_tagger(bam_in, bam_out, meth, extra=extra)
+        except BaseException as e:
+            return out.bad('cli:exception:%s' % type(e).__name__, repr(e)[:300])
+        kw = {'umi_hamming_distance': 0, 'no_umi_cigar_processing': o['no_umi_cigar_processing']}
+        if meth == 'nla':
+            kw.update(allow_cycle_shift=o['allow_cycle_shift'], check_motif=not o['no_restriction_motif_check'])
+        fcls = NlaIIIFragment if meth == 'nla' else CHICFragment
+        want = {}
+        with pysam.AlignmentFile(bam_in) as f:
+            for r in f:
+                fr = fcls([r, None], **kw)
+                want[r.query_name] = observe(fr, r)
+        with pysam.AlignmentFile(bam_out) as f:
+            got = {r.query_name: {'valid': not r.is_qcfail, 'DS': r.get_tag('DS') if r.has_tag('DS') else None,
+                                  'RS': r.get_tag('RS') if r.has_tag('RS') else None} for r in f}
+        for name in sorted(want):
+            w, g = want[name], got.get(name)
+            if g is None:
+                out.bad('cli:record-missing', name)
+                continue
+            if bool(w['valid']) != bool(g['valid']):
+                out.bad('cli:%s:validity-differs-from-the-fragment-class' % meth, '%s: command line %r, fragment class with the same options %r; options %r' % (name, g, w, o))
+            elif w['valid'] and (w['DS'] != g['DS'] or (w['RS'] is not None and g['RS'] is not None and bool(w['RS']) != bool(g['RS']))):
+                out.bad('cli:%s:site-differs-from-the-fragment-class' % meth, '%s: command line %r, fragment class with the same options %r; options %r' % (name, g, w, o))
+        out.nontrivial = any(f['clip5'] for f in case['frags']) and any(o.values())
+        out.label(*['cli:%s' % k_ for k_, v in o.items() if v])
+    finally:
+        shutil.rmtree(d, ignore_errors=True)
+    seen = {}
+    for s_, m_ in out.violations:
+        seen.setdefault(s_, m_)
+    out.violations = list(seen.items())
+    return out
+
+
 def parts(tier):
     t = tier == 'thorough'
     return [Part('cuts', eval_case, strategy=strategy, examples=600000 if t else 12000),
             Part('radius', eval_radius, strategy=radius_strategy, examples=60000 if t else 2000),
-            Part('no_overhang', eval_no_overhang, strategy=no_overhang_strategy, examples=60000 if t else 2000)]
+            Part('no_overhang', eval_no_overhang, strategy=no_overhang_strategy, examples=60000 if t else 2000),
+            Part('cli', eval_cli, strategy=cli_strategy, examples=6000 if t else 160)]
